@@ -88,7 +88,7 @@ type Ctx struct {
 	trace       *os.File
 	progress    atomic.Int64
 	cur         atomic.Pointer[curCase]
-	sub      atomic.Pointer[subCase]
+	sub         atomic.Pointer[subCase]
 	start       time.Time
 	Deadline    time.Time
 }
